@@ -361,6 +361,22 @@ class _Expr(ast.NodeTransformer):
                     star = n.args[-1].value
                     extra = [ast.Subscript(value=copy.deepcopy(star), slice=ast.Constant(value=i), ctx=ast.Load()) for i in range(k)]
                     return ast.copy_location(ast.Call(func=f, args=list(n.args[:-1]) + extra, keywords=[]), n)
+        # operator.add(a, b) -> a + b  (and the other functions of the operator module that are spellings of an operator)
+        if isinstance(f, ast.Attribute) and isinstance(f.value, ast.Name) and f.value.id == "operator" and not n.keywords \
+                and not self.t._is_local("operator"):
+            BIN = {"add": ast.Add, "sub": ast.Sub, "mul": ast.Mult, "and_": ast.BitAnd, "or_": ast.BitOr, "xor": ast.BitXor, "lshift": ast.LShift,
+                   "rshift": ast.RShift, "floordiv": ast.FloorDiv, "mod": ast.Mod, "truediv": ast.Div, "pow": ast.Pow}
+            UN = {"neg": ast.USub, "invert": ast.Invert, "inv": ast.Invert, "not_": ast.Not, "pos": ast.UAdd}
+            CMP = {"eq": ast.Eq, "ne": ast.NotEq, "lt": ast.Lt, "le": ast.LtE, "gt": ast.Gt, "ge": ast.GtE, "is_": ast.Is, "is_not": ast.IsNot}
+            if f.attr in BIN and len(n.args) == 2:
+                self.changed = True
+                return ast.copy_location(ast.BinOp(left=n.args[0], op=BIN[f.attr](), right=n.args[1]), n)
+            if f.attr in UN and len(n.args) == 1:
+                self.changed = True
+                return ast.copy_location(ast.UnaryOp(op=UN[f.attr](), operand=n.args[0]), n)
+            if f.attr in CMP and len(n.args) == 2:
+                self.changed = True
+                return ast.copy_location(ast.Compare(left=n.args[0], ops=[CMP[f.attr]()], comparators=[n.args[1]]), n)
         if isinstance(f, ast.Name) and f.id == "int" and len(n.args) == 2 and not n.keywords and isinstance(n.args[1], ast.Constant) and n.args[1].value == 10 \
                 and isinstance(n.args[0], (ast.Subscript, ast.Attribute, ast.Name)):
             # int(text, 10) -> int(text): the argument is a token of the parse result (a str); base 10 is the default
